@@ -119,7 +119,11 @@ def explore(task):
         s = sites(t)
         want = list(ins) + (["verif_lookup"] if (path == "lookup" or v2) else []) + list(outs)
         if s != want:
-            res["viol"].append(("harness:unexpected-fault-free-sites", f"sites {s}, expected {want}", info0))
+            # without any fault every configured rail action (and the dialog action) runs exactly once per turn;
+            # an action that is registered but never executed cannot fail closed either
+            form = "" if World.action_form == "async" else ":" + World.action_form + "-action"
+            res["viol"].append((f"fault-free-run:actions-not-executed-as-configured{form}",
+                                f"fault-free turn executed the actions {s}, expected {want} (action registered as {World.action_form})", info0))
             return res
     n_sites = len(ref[0].actions)
     res["action_sites"] = n_sites
